@@ -270,6 +270,28 @@ func (r0 rec) calc(v int) int {
 	return t + a, x
 }
 `}}},
+		Base{Name: "F", ID: "xpkgsamename", Src: "func F" + sig + ` {
+	n := utf8.RuneLen(rune(a) + 0x20AC)
+	return n*10 + b, x
+}
+`, Manual: []ManualEdit{{"callee swapped for the function of the SAME NAME and signature in another package (utf8.RuneLen -> utf16.RuneLen)", "func F" + sig + ` {
+	n := utf16.RuneLen(rune(a) + 0x20AC)
+	return n*10 + b, x
+}
+`}}},
+		mk("twocontinue", `	i, t := 0, 0
+	for i < len(s) {
+		if s[i] >= a {
+			i++
+			t += 2
+			continue
+		} else {
+			i += 1
+			t -= b
+			continue
+		}
+	}
+	return t, x`),
 		mk("dupcalls", `	c := a * 2
 	sink(c)
 	sink(c)
